@@ -261,6 +261,66 @@ def clause4(P, res):
         res.violated(rid, "cas-census", f"expected >= 30 strong and >= 1 weak compare-exchange sites (matcher self-check), found {strong}/{weak}")
 
 
+def _producer(P, b, op, depth=0):
+    """(body, call event) that produces op, looking through fibre helper functions (their return value) up to two levels"""
+    e = b.producer_call(op)
+    if e is None:
+        return None
+    tgt = P.body(e.callee_resolved)
+    if tgt is not None and tgt.id.startswith("fibre::") and depth < 2:
+        for r in tgt.events:
+            if r.kind == "call" and r.data["d"][0] == 0:
+                return (tgt, r)
+            if r.kind == "assign" and r.data["p"][0] == 0 and r.data["r"]["k"] == "use":
+                return _producer(P, tgt, r.data["r"]["o"], depth + 1)
+        return None
+    return (b, e)
+
+
+def clause5(P, res):
+    rid = "C03-5"
+    res.rule(rid, "the window remainder of a claimed run saturates: in claim_run / claim_run_cold the `valid` count returned next to the claimed ticket is "
+                  "min(claimed, remainder) where the remainder is produced by saturating_sub (or checked_sub) — a wrapping or plain subtraction turns a run claimed "
+                  "entirely past the window (three producers racing between the gate and the fetch_add) into a huge remainder, `valid` becomes the whole run and it is "
+                  "written past the capacity")
+    n = 0
+    for b in P.bodies.values():
+        if not re.search(r"^fibre::mpsc::bounded_v3::shared::Shared::<T>::claim_run(_cold)?$", b.id):
+            continue
+        tuples = [e for e in b.events if e.kind == "assign" and e.data["p"][0] == 0 and e.data["r"]["k"] == "tuple" and len(e.data["r"]["ops"]) == 3]
+        if not tuples:
+            res.unclassified(rid, b.id, "claim function without a (ticket, valid, claimed) tuple", where=f"{b.file}:{b.line}")
+            continue
+        for t in tuples:
+            op = t.data["r"]["ops"][1]
+            if (b.const_of_operand(op) or {}).get("v") == 0:
+                continue  # the early `(0, 0, 0)` return
+            n += 1
+            pr = _producer(P, b, op)
+            ok, why = False, "the valid count is not produced by a `min`"
+            if pr is not None and pr[1].method == "min":
+                mb, me = pr
+                why = "neither operand of the `min` is a saturating remainder"
+                for a in me.args:
+                    q = _producer(P, mb, a)
+                    if q is not None and q[1].method in ("saturating_sub", "checked_sub"):
+                        ok = True
+                    elif q is not None and q[1].method in ("wrapping_sub", "sub", "unchecked_sub"):
+                        why = f"the remainder is computed with {q[1].method} at {q[1].loc}"
+                if not ok:
+                    for x in mb.events:
+                        if x.kind == "assign" and x.data["r"]["k"] == "bin" and x.data["r"]["op"].startswith("Sub") and any(
+                                (mir.op_place(a) or [None])[0] == x.data["p"][0] for a in me.args):
+                            why = f"the remainder is a plain subtraction at {x.loc}"
+            if ok:
+                res.holds(rid, b.id, "valid = min(claimed, window_end.saturating_sub(ticket))", where=t.loc)
+            else:
+                res.violated(rid, b.id, f"the `valid` count returned at {t.loc} is not a saturating window remainder ({why}): a run claimed past the window is admitted "
+                             "whole instead of being tombstoned", where=t.loc)
+    if n < 2:
+        res.violated(rid, "claim-sites", f"expected the two claim functions of the bounded mpsc, found {n}")
+
+
 def run(P, ctx):
     res = Result("C03")
     res.extra["explanation"] = ("Admission-gate shape of value-carrying commits where the admission predicate is a call (mpsc-bounded credit, mpmc-bounded fullness under "
@@ -269,4 +329,5 @@ def run(P, ctx):
     clause2(P, res)
     clause3(P, res)
     clause4(P, res)
+    clause5(P, res)
     return res
